@@ -267,6 +267,22 @@ pub fn drive(args: &HashMap<String, String>) {
         }
         inputs.push(("token-soup".into(), t.join(" ").into_bytes()));
     }
+    // regression corpus: the smallest inputs of every crash repaired so far (known_findings.json, property C14)
+    for t in [
+        "(mod (P1) (include *standard-cl-23*) (defun f (X) X) (defun g (Y) (f 1)) (g P1))",
+        "(mod (P1) (include *standard-cl-24*) (defun f (X) (+ X 1)) (defun g (Y) (* Y (f 3))) (g P1))",
+        "(mod (P1 P4) (include *standard-cl-23*) (let ((S11 P4)) (P1)))",
+        "(mod () (include *standard-cl-22*) (c 1 c (2 2)))",
+        "(mod () (include *standard-cl-21*) (defun-inline F (X) (if 1 X X)) (defun F (X) 1) (a (lambda (Z) (F Z)) (list 5)))",
+        "(mod () (include *standard-cl-23*) (defmac m () (string?)) (m))",
+        "(mod () (include *standard-cl-23*) (defmac m () (qq (m))) (m))",
+        "(mod (X) (include *standard-cl-21*) (defmacro m () (qq (m))) (m X))",
+        "(defun (a) 1)",
+        "(mod)",
+        "(mod . ())",
+    ] {
+        inputs.push(("regression".into(), t.as_bytes().to_vec()));
+    }
     // structured soup: balanced forms whose slots (name, parameter list, body) are filled with the wrong kind of thing:
     // definition keywords of both macro systems, the defmac-only string / number functions with any number of
     // arguments, macros calling themselves; as a whole module and as a bare form (a REPL line)
